@@ -197,12 +197,13 @@ structure Run (P O G B L Sc : Type) where
   decode : Bytes → Option (Snap P O Sc)
   table : LoopTable := loopTable
   killLabel : Int → Int := killLabel
+  saveTbl : List Stmt := saveTable   -- the statement table of `Checkpointer.save`
 
 section process
 variable {P O G B L Sc : Type}
 
 def Run.save (r : Run P O G B L Sc) (d : Dir) (label : Int) (c : Snap P O Sc) : Dir :=
-  run d (saveOps label (r.encode c))
+  run d (opsOf r.saveTbl label (r.encode c))
 
 /-- the training loop of one process from iteration `it` on -/
 def Run.loop (r : Run P O G B L Sc) (stop : Stop) : Nat → Nat → St P O G Sc → Dir → St P O G Sc × Dir
@@ -217,7 +218,7 @@ def Run.loop (r : Run P O G B L Sc) (stop : Stop) : Nat → Nat → St P O G Sc 
       if ckptGuard it r.ckSteps r.total then
         match stop with
         | .crashInSave j n m =>
-          if j = it then (s', run d (crashAt (saveOps it (r.encode (snapshot s'))) n m))
+          if j = it then (s', run d (crashAt (opsOf r.saveTbl it (r.encode (snapshot s'))) n m))
           else
             let d' := r.save d it (snapshot s')
             r.loop stop fuel (it + 1) s' d'
